@@ -15,10 +15,7 @@ func (ex *Exec) lookupNameC(p *Path, name string) (Value, bool) {
 	if v, ok := p.names[name]; ok {
 		return v, true
 	}
-	if v, ok := p.entry[name]; ok {
-		return v, true
-	}
-	// locals of the function under verification, by name (latest declaration wins)
+	// locals and parameters of the function under verification, by name (latest declaration wins): current values
 	var best types.Object
 	for o := range p.vars {
 		if o.Name() == name {
@@ -29,6 +26,9 @@ func (ex *Exec) lookupNameC(p *Path, name string) (Value, bool) {
 	}
 	if best != nil {
 		return p.vars[best], true
+	}
+	if v, ok := p.entry[name]; ok {
+		return v, true
 	}
 	return Value{}, false
 }
@@ -493,6 +493,13 @@ func (ex *Exec) contractBuiltin(p *Path, name string, call *ast.CallExpr) ([]Val
 		ptr := arg(0)
 		et := elemType(ptr.Ty)
 		return one(ex.heapRead(p, "deref:"+sortToken(ex.c.SortOf(et)), et, ptr.T))
+	case "mapSet":
+		mm, k, v := arg(0), arg(1), arg(2)
+		mt := mm.Ty.Underlying().(*types.Map)
+		mk, dom, val, _ := ex.c.mapParts(mm.Ty)
+		kk := ex.convert(p, k, mt.Key(), call.Pos())
+		vv := ex.convert(p, v, mt.Elem(), call.Pos())
+		return one(Value{app(mk, "(store "+app(dom, mm.T)+" "+kk.T+" true)", "(store "+app(val, mm.T)+" "+kk.T+" "+vv.T+")", "false"), mm.Ty})
 	case "charAt":
 		return one(Value{"(str.to_code (str.at " + arg(0).T + " " + arg(1).T + "))", intT})
 	case "result0", "result1", "result2":
